@@ -99,7 +99,17 @@ func (c13) Gen(r *Rng, tier string, run int) *Trace {
 			}
 			g.emit(Op{Obj: c4, M: "SetExpression", Args: []Val{v}}, false)
 		case 9:
-			if g.lenOf(s0) > 0 && r.Bool(0.5) {
+			if !g.m.S[s0].Opt["nnest"] && r.Bool(0.5) {
+				v := val()
+				if v.K == "nil" {
+					v = g.plain()
+				}
+				if g.lenOf(s0) > 0 && r.Bool(0.5) {
+					g.emit(Op{Obj: s0, M: "Replace", Args: []Val{v, vInt(r.Intn(g.lenOf(s0)))}}, false)
+				} else {
+					g.emit(Op{Obj: s0, M: "Insert", Args: []Val{v, vInt(r.Range(0, g.lenOf(s0)))}}, false)
+				}
+			} else if g.lenOf(s0) > 0 && r.Bool(0.5) {
 				g.emit(Op{Obj: s0, M: "Remove", Args: []Val{vInt(r.Intn(g.lenOf(s0)))}}, false)
 			} else {
 				g.emit(Op{Obj: s0, M: "Pop"}, false)
